@@ -51,7 +51,7 @@ def check_message_immutability():
         raise ExtractError("message/ is no longer evidently immutable-by-construction: " + "; ".join(bad))
 
 
-def fn_body(src, start):
+def block_at(src, start):
     """text of the brace-balanced block that starts at the first '{' at or after `start`"""
     j = src.index("{", start)
     d = 0
@@ -80,13 +80,13 @@ def gen_sim_cert():
         if "impl Protocol for" not in src:
             continue
         for m in re.finditer(r"impl\s+Protocol\s+for\s+([A-Za-z0-9_<>:, ]+?)\s*\{", src):
-            impl = fn_body(src, m.end() - 1)
+            impl = block_at(src, m.end() - 1)
             sm = re.search(r"async\s+fn\s+start\s*\(", impl)
             if not sm:
                 raise ExtractError(f"{p}: impl Protocol for {m.group(1)} has no async fn start")
             sig_end = impl.index(")", sm.end())
             # skip to the body: first '{' after the return type
-            body = fn_body(impl, impl.index("StartError", sig_end))
+            body = block_at(impl, impl.index("StartError", sig_end))
             waits = len(re.findall(r"\.wait\(\)\s*\.await", body))
             pre = re.split(r"\.wait\(\)\s*\.await", body)[0] if waits else body
             send_before = any(t in pre for t in SEND_LIKE)
